@@ -8,7 +8,7 @@ _UT = "stable_baselines3/common/utils.py"
 SPECS = [
     # BaseCallback.on_step: the two counter updates before _on_step()
     dict(
-        name="cb_on_step_counters", qual="BaseCallback.on_step", start=r"^self\.n_calls \+= ", end=r"^self\.num_timesteps = ",
+        name="cb_on_step_counters", qual="BaseCallback.on_step", start=r"^self\.n_calls", end=r"^self\.num_timesteps = ",
         inputs=[("n_calls", "Z"), ("model_nt", "Z")],
         subst={"self.n_calls": "n_calls", "self.num_timesteps": "num_timesteps", "self.model.num_timesteps": "model_nt"},
         outputs=[("n_calls", "Z"), ("num_timesteps", "Z")],
@@ -20,31 +20,31 @@ SPECS = [
     ),
     # CallbackList._on_step: conjunction, every child is called (child result is the LEFT operand)
     dict(
-        name="cblist_combine", qual="CallbackList._on_step", start=r"^continue_training = callback\.on_step\(\)", end=None, kind="expr", ret="bool",
+        name="cblist_combine", qual="CallbackList._on_step", start=r"^continue_training = .*callback\.on_step\(\)", end=None, kind="expr", ret="bool",
         inputs=[("child_ret", "bool"), ("continue_training", "bool")], subst={"callback.on_step()": "child_ret"},
     ),
     # CheckpointCallback
     dict(
-        name="checkpoint_cond", qual="CheckpointCallback._on_step", start=r"^if self\.n_calls % self\.save_freq", end=None, kind="test",
+        name="checkpoint_cond", qual="CheckpointCallback._on_step", start=r"^if .*self\.save_freq", end=None, kind="test",
         inputs=[("n_calls", "Z"), ("save_freq", "Z")], subst={"self.n_calls": "n_calls", "self.save_freq": "save_freq"},
     ),
     # EvalCallback
     dict(
-        name="eval_cond", qual="EvalCallback._on_step", start=r"^if self\.eval_freq > 0 and ", end=None, kind="test",
+        name="eval_cond", qual="EvalCallback._on_step", start=r"^if .*self\.eval_freq", end=None, kind="test",
         inputs=[("n_calls", "Z"), ("eval_freq", "Z")], subst={"self.n_calls": "n_calls", "self.eval_freq": "eval_freq"},
     ),
     dict(
-        name="eval_better", qual="EvalCallback._on_step", start=r"^if mean_reward > self\.best_mean_reward", end=None, kind="test",
+        name="eval_better", qual="EvalCallback._on_step", start=r"^if .*self\.best_mean_reward", end=None, kind="test",
         inputs=[("mean_reward", "Z"), ("best", "Z")], subst={"self.best_mean_reward": "best"},
     ),
     dict(
-        name="eval_after_combine", qual="EvalCallback._on_step", start=r"^continue_training = continue_training and self\._on_event\(\)", end=None,
+        name="eval_after_combine", qual="EvalCallback._on_step", start=r"^continue_training = .*self\._on_event\(\)", end=None,
         kind="expr", ret="bool",
         inputs=[("continue_training", "bool"), ("event_ret", "bool")], subst={"self._on_event()": "event_ret"},
     ),
     # EveryNTimesteps
     dict(
-        name="everyn_cond", qual="EveryNTimesteps._on_step", start=r"^if self\.num_timesteps - self\.last_time_trigger >= ", end=None, kind="test",
+        name="everyn_cond", qual="EveryNTimesteps._on_step", start=r"^if .*self\.last_time_trigger", end=None, kind="test",
         inputs=[("num_timesteps", "Z"), ("last_time_trigger", "Z"), ("n_steps", "Z")],
         subst={"self.num_timesteps": "num_timesteps", "self.last_time_trigger": "last_time_trigger", "self.n_steps": "n_steps"},
     ),
@@ -69,13 +69,13 @@ SPECS = [
         outputs=[("n_episodes", "Z")],
     ),
     dict(
-        name="maxep_continue", qual="StopTrainingOnMaxEpisodes._on_step", start=r"^continue_training = self\.n_episodes < ", end=None, kind="expr", ret="bool",
+        name="maxep_continue", qual="StopTrainingOnMaxEpisodes._on_step", start=r"^continue_training = ", end=None, kind="expr", ret="bool",
         inputs=[("n_episodes", "Z"), ("total_max", "Z")],
         subst={"self.n_episodes": "n_episodes", "self._total_max_episodes": "total_max"},
     ),
     # emission points: on-policy loops
     dict(
-        name="onpol_rollout_guard", file=_ON, qual="OnPolicyAlgorithm.collect_rollouts", start=r"^while n_steps < n_rollout_steps", end=None, kind="test",
+        name="onpol_rollout_guard", file=_ON, qual="OnPolicyAlgorithm.collect_rollouts", start=r"^while .*n_rollout_steps", end=None, kind="test",
         inputs=[("n_steps", "Z"), ("n_rollout_steps", "Z")],
     ),
     dict(
@@ -88,7 +88,7 @@ SPECS = [
         inputs=[("n_steps", "Z")], outputs=[("n_steps", "Z")],
     ),
     dict(
-        name="onpol_learn_guard", file=_ON, qual="OnPolicyAlgorithm.learn", start=r"^while self\.num_timesteps < total_timesteps", end=None, kind="test",
+        name="onpol_learn_guard", file=_ON, qual="OnPolicyAlgorithm.learn", start=r"^while .*total_timesteps", end=None, kind="test",
         inputs=[("num_timesteps", "Z"), ("total_timesteps", "Z")], subst={"self.num_timesteps": "num_timesteps"},
     ),
     # emission points: off-policy loops
@@ -103,15 +103,15 @@ SPECS = [
         inputs=[("num_collected_episodes", "Z")], outputs=[("num_collected_episodes", "Z")],
     ),
     dict(
-        name="offpol_learn_guard", file=_OFF, qual="OffPolicyAlgorithm.learn", start=r"^while self\.num_timesteps < total_timesteps", end=None, kind="test",
+        name="offpol_learn_guard", file=_OFF, qual="OffPolicyAlgorithm.learn", start=r"^while .*total_timesteps", end=None, kind="test",
         inputs=[("num_timesteps", "Z"), ("total_timesteps", "Z")], subst={"self.num_timesteps": "num_timesteps"},
     ),
     dict(
-        name="cb_collect_more_step", file=_UT, qual="should_collect_more_steps", start=r"^return num_collected_steps < ", end=None, kind="expr", ret="bool",
+        name="cb_collect_more_step", file=_UT, qual="should_collect_more_steps", start=r"^return .*num_collected_steps", end=None, kind="expr", ret="bool",
         inputs=[("num_collected_steps", "Z"), ("frequency", "Z")], subst={"train_freq.frequency": "frequency"},
     ),
     dict(
-        name="cb_collect_more_episode", file=_UT, qual="should_collect_more_steps", start=r"^return num_collected_episodes < ", end=None, kind="expr", ret="bool",
+        name="cb_collect_more_episode", file=_UT, qual="should_collect_more_steps", start=r"^return .*num_collected_episodes", end=None, kind="expr", ret="bool",
         inputs=[("num_collected_episodes", "Z"), ("frequency", "Z")], subst={"train_freq.frequency": "frequency"},
     ),
     # _setup_learn: counter reset / total extension
